@@ -157,4 +157,59 @@ theorem not_onT_of_sidOf {s : Srv} (h : WF s) {t t' : Eio} (hne : t' ≠ t) {ns 
   obtain ⟨k, rfl, hb⟩ := boundTo_of_eioOf h (sidOf_eioOf h.rooms hs)
   exact not_onT_of_boundTo hb hne
 
+/-! ### inputs of the hostile transport are invisible in `strip t`, up to the id counter -/
+
+theorem lostGo_nextSid {s : Srv} (cfg : Cfg) (t : Eio) (reason : Str) (outs : List Out)
+    (nss : List Ns) : (handleLost.go cfg t reason s outs nss).1.nextSid = s.nextSid := by
+  induction nss generalizing s outs with
+  | nil => rfl
+  | cons ns rest ih =>
+    unfold handleLost.go
+    rw [ih]
+    rcases handleDisconnect_state cfg s t ns reason with ⟨h1, _⟩ | ⟨sid, k, _, _, h1⟩ <;>
+      rw [h1] <;> rfl
+
+theorem strip_dropTransport (t : Eio) (s : Srv) : strip t (dropTransport s t) = strip t s := by
+  simp only [strip, dropTransport, List.filter_filter, Bool.and_self]
+
+/-- the hostile transport's own inputs: its frames, and engine.io opening / losing it -/
+def ofT (t : Eio) : Input → Prop
+  | .eioConnect t' => t' = t
+  | .frame t' _ => t' = t
+  | .eioLost t' _ => t' = t
+  | _ => False
+
+theorem strip_hostile {s : Srv} (h : WF s) (dec : Str → Except Err (Packet × Nat)) (cfg : Cfg)
+    {t : Eio} {i : Input} (hi : ofT t i) :
+    ∃ d, strip t (step dec cfg s i).1 = bump d (strip t s) := by
+  cases i with
+  | eioConnect t' =>
+    cases hi
+    refine ⟨0, ?_⟩
+    rw [step]
+    simp [strip, bump, List.filter_append]
+  | frame t' v =>
+    cases hi
+    have hw := h.step dec cfg (.frame t v)
+    have hn : s.nextSid ≤ (step dec cfg s (.frame t v)).1.nextSid := by
+      have := nextSid_mono h dec cfg [.frame t v]
+      rwa [run_cons, run_nil] at this
+    refine ⟨_, strip_of_view ?_ (hw.pendingNil.trans h.pendingNil.symm) hn⟩
+    rw [step]; exact view_handleFrame h dec cfg t v
+  | eioLost t' r =>
+    cases hi
+    refine ⟨0, ?_⟩
+    rw [step, handleLost_eq]
+    split
+    · rfl
+    · dsimp only
+      rw [strip_dropTransport]
+      have hw := h.lostGo cfg t r [] (namespacesOf s.rooms)
+      have := strip_of_view (view_lostGo h cfg t r [] (namespacesOf s.rooms))
+        (hw.pendingNil.trans h.pendingNil.symm) (Nat.le_of_eq (lostGo_nextSid ..).symm)
+      rw [this, lostGo_nextSid, Nat.sub_self]
+  | emit _ _ _ _ _ _ | call _ _ _ _ _ | apiDisconnect _ _ | enterRoom _ _ _ | leaveRoom _ _ _
+  | closeRoom _ _ | rooms _ _ | getSession _ _ | saveSession _ _ _ | sessionBlock _ _ _ _
+  | settle => cases hi
+
 end Sio.Server
